@@ -357,6 +357,12 @@ func c14Loop(r *rand.Rand) Case {
 	case 2: // test that is not a boolean
 		loop.Test = pCond{Kind: "bad"}
 		plain = false
+	case 3: // a stale counter in the data: init runs first, so the first test sees init's value
+		data["i"] = 9
+	case 4: // init puts the counter beyond the bound although the data said otherwise: no iteration at all
+		data["i"] = 0
+		loop.Init = leafAct("init", pOp{Kind: "set", Data: map[string]any{"i": n + 1}}, pOp{Kind: "log", Tmpl: []tpart{{Lit: "init"}}})
+		plain = false
 	}
 	root := &pAct{Name: "r", Ops: []pOp{loop, {Kind: "abort", Tmpl: []tpart{{Lit: "end marker"}}}}}
 	c := execCase("loop", root, data, n >= 2)
@@ -390,7 +396,7 @@ func c14Loop(r *rand.Rand) Case {
 func init() {
 	register(&Prop{
 		ID:   "C14",
-		Rule: "kinds: foreach (literal items / list query / leaf query / unresolved query; variable name default or custom; body = log of the variable + optional trace/set + failure at one chosen item through a guarded child step or always; body's own when ignored), foreach-container (each key exactly once, any order; Go side only), call (define then call with single-key, default and dotted argsPath incl. paths next to existing data; undefined callee; same name defined twice; failing callee; second call; literal and templated arguments incl. a nested map, read back inside the callee), call-in-loop (a call in a forEach body, once or twice per item with the data changed in between: top-level and nested arguments must be rendered anew every time), literal items incl. the empty string, foreach-nested (a forEach in a forEach body, default and custom variable names on either level), define-then-call-later (two runs on one executor: a rejected second define must not replace the first), loop (counter loops with bounds 0-5 whose body and post-action log the counter, post increments it; body failing at i=0; loops whose test is false at once). Observables: full event sequence, error, final data vs the Coq interpreter; Go side: variable / arguments absent afterwards, unrelated data undisturbed, items x body in order up to the failure, init,(test,body,post)^n,test. Non-trivial: failure at an inner item / dotted argsPath / >= 2 iterations. Distinct by Gallina term.",
+		Rule: "kinds: foreach (literal items / list query / leaf query / unresolved query; variable name default or custom; body = log of the variable + optional trace/set + failure at one chosen item through a guarded child step or always; body's own when ignored), foreach-container (each key exactly once, any order; Go side only), call (define then call with single-key, default and dotted argsPath incl. paths next to existing data; undefined callee; same name defined twice; failing callee; second call; literal and templated arguments incl. a nested map, read back inside the callee), call-in-loop (a call in a forEach body, once or twice per item with the data changed in between: top-level and nested arguments must be rendered anew every time), literal items incl. the empty string, foreach-nested (a forEach in a forEach body, default and custom variable names on either level), define-then-call-later (two runs on one executor: a rejected second define must not replace the first), loop (counter loops with bounds 0-5 whose body and post-action log the counter, post increments it; body failing at i=0; loops whose test is false at once; a stale counter in the data before init; init that puts the counter beyond the bound). Observables: full event sequence, error, final data vs the Coq interpreter; Go side: variable / arguments absent afterwards, unrelated data undisturbed, items x body in order up to the failure, init,(test,body,post)^n,test. Non-trivial: failure at an inner item / dotted argsPath / >= 2 iterations. Distinct by Gallina term.",
 		Gen: func(r *rand.Rand, tier string, idx int) Case {
 			switch idx % 8 {
 			case 0, 1, 2:
